@@ -1,4 +1,5 @@
 \* thorough: <= 4 frames over the core alphabet, 2 subscriptions, every completion order / notification placement
+\* measured: 544 741 distinct / 1 141 918 generated states, depth 33
 CONSTANTS
   FrameAlphabet <- FramesCore
   MaxFrames = 4
